@@ -310,6 +310,9 @@ def check_exclusion(ctx, res: Result, dotted: str, a="order", b="size", rule="M-
         res.violation(rule, f, text, "guard", f"the {a}/{b} exclusion guard rejects the wrong combinations (must raise exactly when both are given)", loc(v.fi, n))
     elif st == "delegated-unknown":
         res.unknown(rule, f, stmt, "guard", f"no exclusion guard here; both filters are handed on by `{text}`, whose handling could not be decided", loc(v.fi, n))
+    elif getattr(v.fi, "rewrapped", False):
+        # `@_single_filter def get_edges(...)`: the call goes through a decorator of the repository first
+        res.unknown(rule, f, stmt, "guard", f"no exclusion guard in the body; the function is wrapped by a repository decorator ({', '.join('@' + norm(d_) for d_ in v.fi.node.decorator_list)[:60]}), which may be what rejects the combination", loc(v.fi, v.fi.node))
     else:
         res.violation(rule, f, stmt, "guard", f"no guard rejects a call that specifies both {a} and {b}", loc(v.fi, v.fi.node))
     return True
